@@ -25,7 +25,8 @@ LEVEL_TEXT = 'Held on random operation sequences with nested contexts, exception
 RULE = ("random sequences (30-50 ops) of translate/rotate/scale/reflect/mirror/set_pivot/save_state()/"
         "save_state(name)/restore_state()/restore_state(name)/delete_state and nested current_transform()/"
         "named_transform() contexts whose bodies transform, save, restore named states and sometimes "
-        "raise; named states are restored repeatedly with mutations in between; distinct = (operation, "
+        "raise; named states are restored repeatedly with mutations in between; names also in padded spellings, "
+        "blank names (= the stack); distinct = (operation, "
         "stack depth, number of names, inside a context?)")
 ASSUMPTIONS = [
     "reference: harness.models.TModel (T' = Tr(p).A.Tr(-p).T, snapshots by value)",
@@ -43,6 +44,16 @@ FLOORS = {
     "thorough": {"counts": {"mapping_comparisons": 8000000, "named_restores": 200000}, "keys": 250},
 }
 NAMES = ["a", "b", "job", "left"]
+# blank names mean "the stack" and surrounding blanks are not part of a name (documented strip())
+SPELLINGS = {"a": [" a", "a "], "b": ["b\t"], "job": ["  job  "], "left": [" left"]}
+
+
+def spell(rng, n):
+    """the name itself, one of its padded spellings, or (rarely) a blank name"""
+    r = rng.random()
+    if r < 0.12:
+        return rng.choice(SPELLINGS[n]) if n in SPELLINGS else n
+    return n
 
 
 class BodyError(Exception):
@@ -114,10 +125,15 @@ class Run:
             self.compare(name)
         elif r < 0.55:
             if rng.random() < 0.5:
-                t.save_state(); m.save(); self.log.append(["save_state"])
+                if rng.random() < 0.15:
+                    blank = rng.choice(["", " ", "\t "])
+                    t.save_state(blank); m.save(blank); self.log.append(["save_state", blank])
+                    self.col.count("blank_name_calls")
+                else:
+                    t.save_state(); m.save(); self.log.append(["save_state"])
                 self.compare("save_state")
             else:
-                n = rng.choice(NAMES)
+                n = spell(rng, rng.choice(NAMES))
                 t.save_state(n); m.save(n); self.log.append(["save_state", n])
                 self.compare("save_state(name)")
         elif r < 0.72:
@@ -125,6 +141,11 @@ class Run:
             n = None
             if named:
                 n = rng.choice(sorted(m.names)) if (m.names and rng.random() < 0.85) else rng.choice(NAMES)
+                n = spell(rng, n)
+            elif rng.random() < 0.15:
+                n = rng.choice(["", " "])       # a blank name restores from the stack
+                named = True
+                self.col.count("blank_name_calls")
             self.log.append(["restore_state", n])
             exc_real = exc_model = None
             try:
@@ -139,9 +160,9 @@ class Run:
                 return self.fail("restore-error-behaviour-differs", real=exc_real, model=exc_model)
             if exc_real:
                 self.col.count("error_cases")
-            elif named:
+            elif named and n.strip():
                 self.col.count("named_restores")
-            self.compare("restore_state(name)" if named else "restore_state")
+            self.compare("restore_state(name)" if named and n.strip() else "restore_state")
         elif r < 0.77:
             n = rng.choice(NAMES)
             self.log.append(["delete_state", n])
